@@ -1,8 +1,8 @@
 SPECIFICATION TraceSpec
-CONSTANTS Src = {"v","b","g","r","h","y","e","s","z"}
+CONSTANTS Src = {"v","b","g","r","h","y","e","s","z","c"}
           Tgt = {"v","t","g","s","w"}
           Ids = {"i1","i2","i3","i4","i5","i6"}
-          Vars = {1,2}
+          Vars = {1,2,3}
           Gated = {"g","y","z"}
           MaxH = 1
           EmitOn = "off"
